@@ -5,6 +5,23 @@ import threading as _real_threading
 from sweetpea._internal.sampling_strategy import scattered_map_core as M_sm
 
 
+import copy as _copy
+
+_PRISTINE = {k: _copy.deepcopy(v) for k, v in vars(M_sm).items()
+             if not k.startswith("__") and isinstance(v, (list, dict, int, float, bool)) and not isinstance(v, type)}
+
+
+def reset_module_state():
+    """Put scattered_map_core's process-global data back to what it was at import, so that one run cannot see the
+    leftovers of another run in the same worker process (runs must be independent of worker assignment)."""
+    for k in list(vars(M_sm)):
+        if k in _PRISTINE:
+            setattr(M_sm, k, _copy.deepcopy(_PRISTINE[k]))
+    for k in ("combs_weights", "trans_in_crossing"):
+        if k not in _PRISTINE and hasattr(M_sm, k):
+            delattr(M_sm, k)
+
+
 class SimAbort(BaseException):
     """User interrupt injected at a traced line (KeyboardInterrupt-like)."""
     injected = True
@@ -79,6 +96,7 @@ class SMWorld:
 
     def install(self):
         w = self.w
+        reset_module_state()
         w._set(M_sm, "random", w.rng.random)
         w._set(M_sm, "time", self.time)
         w._set(M_sm, "threading", FakeThreading(self))
